@@ -62,6 +62,8 @@ def cz(v, model, universe=None):
         return d
     if isinstance(v, VObj):
         return {"$obj": getattr(v.cls, "name", str(v.cls)), "fields": {k: cz(x, model) for k, x in v.fields.items()}}
+    if isinstance(v, VDRec):
+        return {"$dict": {fn: cz(v.field(fn), model) for fn in v.t.fields if z3.is_true(_ev(model, v.has(fn)))}}
     if isinstance(v, VDictRec):
         return {"$dict": {k: cz(x, model) for k, x in v.fields.items()}}
     if type(v).__name__ in ("VJDict", "VJSet", "VJList", "VWStr"):
